@@ -1,7 +1,7 @@
 (* C02 — SolveFailure is raised exactly when the hard constraints are unsatisfiable.  Property theorems only.
    The solver enters as a parameter `sat` with the premises that it is sound and complete for the terms it is given. *)
 From Coq Require Import ZArith List Bool.
-From PV Require Import Common.Bits Rand.BV Rand.Expr Rand.Lower Rand.Typing Rand.LowerProofs Rand.Solve Rand.SolveProofs.
+From PV Require Import Common.Bits Rand.BV Rand.Expr Rand.Lower Rand.Typing Rand.LowerProofs Rand.Solve Rand.SolveProofs Rand.Randset Rand.RandsetProofs.
 Import ListNotations.
 Open Scope Z_scope.
 
@@ -37,3 +37,41 @@ Print Assumptions C02_returned_values_are_a_solution.
 Theorem C02_soft_contributes_no_hard_term : forall G B e, lower_s G B false (SSoft e) = None.
 Proof. exact lower_soft_none. Qed.
 Print Assumptions C02_soft_contributes_no_hard_term.
+
+(* The statements of a call are not solved together but rand set by rand set (Rand/Randset.v: RandInfoBuilder's grouping, one
+   solver instance per set, SolveFailure at the first set that has no solution).  That changes nothing about when a call
+   fails: (1) if one rand set has no solution, the whole system has none (every statement of a set is a statement of the
+   call); (2) if every rand set has a solution, the values assembled from them solve the whole system - because a statement's
+   fields all lie in its own set and no field lies in two sets.  `holds e k` is any meaning of statement k under assignment e
+   that depends only on the fields the statement refers to. *)
+Theorem C02_failing_rand_set_means_unsatisfiable :
+  forall (V : Type) (holds : (nat -> V) -> nat -> bool) stmts r,
+    In r (build stmts) -> (forall e, exists k, In k (rs_stmts r) /\ holds e k = false) ->
+    forall e, exists k, (k < length stmts)%nat /\ holds e k = false.
+Proof. exact unsat_set_unsat_system. Qed.
+Print Assumptions C02_failing_rand_set_means_unsatisfiable.
+Theorem C02_rand_set_solutions_compose :
+  forall (V : Type) (holds : (nat -> V) -> nat -> bool) stmts (envs : list (nat -> V)) dflt,
+    (forall k refs e1 e2, nth_error stmts k = Some refs -> (forall f, In f refs -> e1 f = e2 f) -> holds e1 k = holds e2 k) ->
+    length envs = length (build stmts) ->
+    (forall i r e k, nth_error (build stmts) i = Some r -> nth_error envs i = Some e -> In k (rs_stmts r) -> holds e k = true) ->
+    forall k, (k < length stmts)%nat -> holds (assemble (build stmts) envs dflt) k = true.
+Proof. exact compositional_sound. Qed.
+Print Assumptions C02_rand_set_solutions_compose.
+(* every statement is in exactly one rand set, together with all the fields it refers to; rand sets share no field *)
+Theorem C02_every_statement_in_one_rand_set :
+  forall stmts k, (k < length stmts)%nat -> exists i r, nth_error (build stmts) i = Some r /\ In k (rs_stmts r).
+Proof. exact build_covers. Qed.
+Print Assumptions C02_every_statement_in_one_rand_set.
+Theorem C02_rand_set_holds_its_statements_fields :
+  forall stmts r k refs f, In r (build stmts) -> In k (rs_stmts r) -> nth_error stmts k = Some refs -> In f refs -> In f (rs_fields r).
+Proof. exact build_closed. Qed.
+Print Assumptions C02_rand_set_holds_its_statements_fields.
+Theorem C02_rand_sets_share_no_field :
+  forall stmts i j r1 r2 f, nth_error (build stmts) i = Some r1 -> nth_error (build stmts) j = Some r2 ->
+    In f (rs_fields r1) -> In f (rs_fields r2) -> i = j.
+Proof. exact build_disjoint. Qed.
+Print Assumptions C02_rand_sets_share_no_field.
+Example C02_rand_set_example :
+  map rs_stmts (build [[0;1];[2];[1;2];[];[5]]%nat) = [[1;0;2];[3];[4]]%nat.
+Proof. vm_compute. reflexivity. Qed.
